@@ -21,7 +21,7 @@ RULE = (
 )
 ASSUMPTIONS = ["encoder vf/ref/cosem_enc.py (rebuilt vendor captures byte for byte in setup) and name table vf/ref/names.py are the specification side"]
 WATCHDOG_S = {"quick": 900, "thorough": 7200}
-N = {"quick": 200, "thorough": 9500}
+N = {"quick": 600, "thorough": 9500}
 GEN = staticmethod(dlms_gen.aidon_case)
 
 
